@@ -82,6 +82,7 @@ type cnode struct {
 	probePend bool
 	mu        sync.Mutex
 	gen       int // instance generation (restarts)
+	mon       *c07mon
 }
 
 type wireRec struct {
@@ -106,6 +107,7 @@ type clusterCfg struct {
 	PushPull   time.Duration // 0 = use config PushPullInterval
 	StreamAlt  bool          // stream dials are choice points (refuse) inside the window
 	OnlyProto  bool          // only protocol packets (ping/ack/indirect/nack/suspect/alive/dead) are choice points
+	Monitor    bool          // attach the C07 event monitor to every node
 }
 
 type cluster struct {
@@ -163,8 +165,15 @@ func newCluster(t *testing.T, b *bubble, cfg clusterCfg, ch *chooser) *cluster {
 }
 
 func (c *cluster) spawn(i, gen int) *cnode {
+	var mon *c07mon
+	if c.cfg.Monitor {
+		mon = &c07mon{set: map[string]string{}}
+	}
 	n, err := newNode(nodeName(i), nodeIP(i), func(cf *ml.Config) {
 		cf.BindPort = nodePort(i)
+		if mon != nil {
+			cf.Events.(*eventRec).hook = mon.onEvent
+		}
 		cf.Delegate.(*delegateRec).Meta = []byte(fmt.Sprintf("meta-%d-g%d", i, gen))
 		if c.cfg.Opts != nil {
 			c.cfg.Opts(i, cf)
@@ -172,7 +181,10 @@ func (c *cluster) spawn(i, gen int) *cnode {
 	})
 	must(err)
 	c.b.track(n)
-	cn := &cnode{node: n, idx: i, gen: gen}
+	cn := &cnode{node: n, idx: i, gen: gen, mon: mon}
+	if mon != nil {
+		mon.m = n.M
+	}
 	c.byAdr[nodeAddr(i)] = cn
 	n.T.OnSend = func(p sentPkt) { c.onSend(cn, p) }
 	n.T.OnDial = func(a ml.Address, d time.Duration) (net.Conn, error) { return c.onDial(cn, a, d) }
